@@ -6,6 +6,7 @@ import FileD.Lemmas.Core
 import FileD.Lemmas.StreamProc
 import FileD.Lemmas.Sys
 import FileD.Lemmas.Proc
+import FileD.Lemmas.ProcN
 namespace FileD.PropsC02
 open FileD.Core
 
@@ -290,6 +291,25 @@ theorem processor_obeys_discipline_partial (acts : List Proc.Act) (h : Nat) (hch
   | mk ps' r =>
     obtain ⟨extra, d', ht, hdr⟩ := Proc.discharge_sim acts h hch fuel (Proc.PS.init ins) ps' r 0
       ⟨rfl, rfl⟩ hs hok hd
+    refine ⟨d', ?_⟩
+    have : ps'.toks = extra := by simpa [Proc.PS.init] using ht
+    simpa [this] using hdr
+
+/-- **proved part, any chain**: any number of holding actions anywhere in the chain (two joins,
+    join behind join_template, …), plain and split-like actions in between, match conditions; the
+    only hypothesis is that no *plain* action breaks an event (source fact: among the shipped
+    plugins only split returns ActionBreak, and it is the spawner of the model). Every input
+    sequence in read order with arbitrary time-outs and re-attachments, every call depth.
+    Holds for the processor as repaired by `fix: processor.Propagate`; proof in
+    `Lemmas/ProcN.lean`: holders further down the chain hold older events (`Shape`), an event that
+    passes the whole chain leaves no holder busy (`PostN`), simulated step by step by `dstep?`. -/
+theorem processor_obeys_discipline_any_chain (acts : List Proc.Act) (ins : List Proc.Item)
+    (hnb : Proc.ItemsNoBrk ins) (hs : Proc.Above 0 ins) (fuel : Nat) :
+    ∃ d, Proc.drun {} (Proc.discharge fuel acts (Proc.PS.init ins)).1.toks = some d := by
+  cases hd : Proc.discharge fuel acts (Proc.PS.init ins) with
+  | mk ps' r =>
+    obtain ⟨extra, d', ht, hdr⟩ := Proc.dischargeN acts fuel (Proc.PS.init ins) ps' r 0
+      (Proc.shape_init acts ins) rfl hs hnb hd
     refine ⟨d', ?_⟩
     have : ps'.toks = extra := by simpa [Proc.PS.init] using ht
     simpa [this] using hdr
